@@ -350,7 +350,8 @@ func c13DLEQ(t *rapid.T, ev *evProp) {
 
 const c13Rule = "two generated families over Ed25519 and P-256. (PVSS) n in 2..10 trustees, 1<=t<=n, secret from edge scalar classes incl. 0, base H from the point generator (non-identity), trustee keys from a seeded stream: all encrypted shares verify singly and in the batch, every DecShare succeeds, verifies and equals x^-1*encshare; RecoverSecret from a random subset of valid decrypted shares in a random order (the others altered in one field) returns secret*G iff >= t are valid, else errors; " +
 	"then one mutation from {one field S.V/P.C/P.R/P.VG/P.VH of an encrypted or decrypted share, another trustee's encrypted/decrypted share, another trustee's key, the commitment of another index, one altered polynomial coefficient, another H, another global challenge}, applied only when the value really differs, must fail single verification, be absent from the batch results and be refused by DecShare. " +
-	"(DLEQ) non-identity G,H, non-zero x: the proof verifies for (xG,xH); changing C, R, VG, VH, xG, xH, G, H or swapping G and H makes it fail. non-trivial = every PVSS case (each carries a negative check) and every DLEQ case whose mutation applies; distinct = distinct rendered case"
+	"(DLEQ) non-identity G,H, non-zero x: the proof verifies for (xG,xH); changing C, R, VG, VH, xG, xH, G, H or swapping G and H makes it fail. non-trivial = every PVSS case (each carries a negative check) and every DLEQ case whose mutation applies; distinct = distinct rendered case" +
+	" Added after the sensitivity rounds: after RecoverSecret the caller's triples still verify and a repeat agrees; VerifyEncShareBatch with disagreeing polynomial / per-trustee commitments; TestC13_Batch: several dealers, DecShareBatch with tampered entries vs DecShare, caller slices preserved."
 
 func TestC13_PVSS(t *testing.T) {
 	ev := evFor("C13")
